@@ -278,7 +278,8 @@ func (f *Filter) clonedResult(req *dns.Msg, r internal.Result) (clone internal.R
 	case nil:
 		return nil
 	case *internal.ResultModifiedRequest:
-		return r.Clone(f.cloner)
+		// Rewrite the request at hand, not the one that filled the cache.
+		return r.CloneForReq(f.cloner, req)
 	case *internal.ResultModifiedResponse:
 		return r.CloneForReq(f.cloner, req)
 	default:
